@@ -642,6 +642,10 @@ class RTCPeerConnection(AsyncIOEventEmitter):
         """
         # check state is valid
         self.__assertNotClosed()
+        if self.signalingState not in ["stable", "have-local-offer"]:
+            raise InvalidStateError(
+                f'Cannot create offer in signaling state "{self.signalingState}"'
+            )
 
         # offer codecs
         for transceiver in self.__transceivers:
